@@ -2,12 +2,4 @@
 HOOK_COMMITS = []
 NOT_BUILT_REASON = "not claimed yet: the specification/binding pipeline for this property is designed (DESIGN.md section 7) but not built in this tree"
 NOT_APPLICABLE = {}
-CHECKS = {
- "C17": {
-  "engine": "Reassembly",
-  "design_ref": "DESIGN.md section 7 (C17), section 6.4",
-  "technique": "TLA+ spec of the reassembler (Reassembly.tla) model-checked with TLC; TLC-generated behaviours replayed on the real Defragmenter; recorded executions validated by Trace_Reassembly.tla",
-  "text": "TLC explores every schedule of up to 3-4 arbitrary (hostile) frames over the full small header domain and every delivery schedule of 4 honest packets (Integrity, BoundedState, CompleteIfAllArrive, HonestExact hold on the I-spec). One behaviour per distinct (state, outcome) is replayed on the real Defragmenter with per-frame tag bytes, comparing the outcome at every step and checking integrity/at-most-once/no-panic on the real bytes; seeded executions of the real Fragmenter/Defragmenter with the real constants are validated against the spec by TLC at every event.",
-  "note": "exhaustive only inside the stated alphabet (2-3 stream offsets, offsets 0..6 units, lengths 0..4 units, depth 3-4, Q<=2); MAX_PACKET_SIZE/MAX_FRAMES boundaries are covered by trace validation only; trusted: TLC, harness projection (tag bytes), the spec's transcription of select_queue/ingest_frame (bound by replay and traces)",
- },
-}
+CHECKS = {}
